@@ -148,3 +148,70 @@ def ob_field_read_type(r, tier, seed):
 _c08_obl = obligations
 def obligations():
     return _c08_obl() + [Ob('O8.2-field-read-type', 'a struct field read after lifting has the lifted type of the field', ob_field_read_type, ('quick', 'thorough'), 2, {})]
+
+# ----------------------------------------------------------------------------- O8.3 a struct literal that stores closures rewrites exactly the fields that receive a closure
+def ob_struct_literal_fields(r, tier, seed, nfields=3):
+    from mirsym.engine import Cell_
+    W = e2.fresh_world(CRATES); tt = W.tt
+    TY = tt.find_adt(['tast', 'Ty'], 'compiler'); ME = [a for a in tt.by_name['MonoExpr'] if a.crate == 'compiler'][0]
+    SD = tt.find_adt(['env', 'StructDef'], 'compiler'); TI = tt.find_adt(['tast', 'TastIdent'], 'compiler'); PR = tt.find_adt(['common', 'Prim'], 'compiler')
+    CO = tt.find_adt(['common', 'Constructor'], 'compiler'); SCn = tt.find_adt(['common', 'StructConstructor'], 'compiler')
+    SC = [a for a in tt.by_name['Scope'] if a.crate == 'compiler' and 'lift' in '::'.join(a.path)][0]; SE = [a for a in tt.by_name['ScopeEntry'] if a.crate == 'compiler'][0]
+    r.bounds = 'struct H with %d fields, each field (solver decision) either an int32 field initialised with a literal or a field of type (int32) -> int32 initialised with a variable holding a lifted closure; one execution of lift::transform_expr on the struct literal per combination' % nfields
+    r.assumptions = ['the closure type closure_env_main_0 is registered with State::register_closure_type and the variable c is in scope with that closure struct (what transform_closure / ELet leave behind)',
+                     'oracle: afterwards the lifted definition of H gives every field that received the closure the closure environment struct as its type and leaves every other field at int32']
+    ident = lambda n: Agg(TI.key, 0, [mkstr(n)])
+    i32 = lambda: Agg(TY.key, TY.vindex('TInt32'), []); clo_ty = lambda: Agg(TY.key, TY.vindex('TStruct'), [mkstr('closure_env_main_0')])
+    fty = lambda: Agg(TY.key, TY.vindex('TFunc'), [PyVec([i32()]), mkbox(i32())])
+    def shape_of(t): return (TY.variants[t.idx].name, ms.pystr(t.fields[0]) if t.fields and isinstance(t.fields[0], Str) else None)
+    def entry(ex):
+        kinds = [ex.choose([(True, 'int'), (True, 'closure')]) for _ in range(nfields)]
+        genv2 = ex.call('env::GlobalTypeEnv::new_empty', []); monoenv = ex.call('mono::GlobalMonoEnv::from_genv', [genv2]); hm = {0: monoenv}
+        fields = PyVec([Agg('tuple', 0, [ident('f%d' % i), i32() if k == 'int' else fty()]) for i, k in enumerate(kinds)])
+        ex.call('mono::GlobalMonoEnv::insert_struct', [Ref(hm, 0), Agg(SD.key, 0, [ident('H'), PyVec([]), fields])])
+        liftenv = ex.call('lift::GlobalLiftEnv::from_monoenv', [hm[0]])
+        hl = {0: liftenv, 1: Agg('compiler::env::Gensym', 0, [Cell_(0)]), 2: ident('closure_env_main_0'), 3: ident('H')}
+        state = ex.call('lift::State::new', [Ref(hl, 0), Ref(hl, 1)]); h = {0: state}
+        ex.call('lift::State::register_closure_type', [Ref(h, 0), Ref(hl, 2), mkstr('apply0')])
+        hty = Agg(TY.key, TY.vindex('TStruct'), [mkstr('H')])
+        layer = PyMap('index'); layer.keys.append(mkstr('c')); layer.vals.append(Agg(SE.key, 0, [clo_ty(), ms.some(mkstr('closure_env_main_0'))]))
+        h[1] = Agg(SC.key, 0, [PyVec([layer])])
+        M = lambda n, **kw: Agg(ME.key, ME.vindex(n), [kw[f[0]] for f in ME.variants[ME.vindex(n)].fields])
+        args = [M('EPrim', value=Agg(PR.key, PR.vindex('Int32'), [7]), ty=i32()) if k == 'int' else M('EVar', name=mkstr('c'), ty=fty()) for k in kinds]
+        e = M('EConstr', constructor=Agg(CO.key, CO.vindex('Struct'), [Agg(SCn.key, 0, [ident('H')])]), args=PyVec(args), ty=hty)
+        ex.call('lift::transform_expr', [Ref(h, 0), Ref(h, 1), e])
+        sd = ex.call('lift::GlobalLiftEnv::get_struct', [Ref(hl, 0), Ref(hl, 3)])
+        if sd.idx == 0: return kinds, None
+        d = ex.deref(sd.fields[0]); fl = dict(zip([x[0] for x in SD.variants[0].fields], d.fields))
+        return kinds, [shape_of(x.fields[1]) for x in fl['fields'].items]
+    res = e2.explore(r, W, entry, [])
+    for p in res:
+        r.cases += 1
+        if p.kind != 'ok':
+            if not any(f.key == 'panic' for f in r.findings): r.findings.append(Finding('panic', 'transform_expr panics on a struct literal: %s' % p.value, {}, False, 'not replayed'))
+            continue
+        kinds, got = p.value; r.nontrivial += 1
+        want = [('TInt32', None) if k == 'int' else ('TStruct', 'closure_env_main_0') for k in kinds]
+        if got != want:
+            if r.findings: continue
+            import os, subprocess, tempfile, shutil
+            from vlib import build
+            decl = ', '.join('f%d: %s' % (i, 'int32' if k == 'int' else '(int32) -> int32') for i, k in enumerate(kinds))
+            init = ', '.join('f%d: %s' % (i, '7' if k == 'int' else 'c') for i, k in enumerate(kinds))
+            src = 'struct H { %s }\nfn main() -> unit { let k = 2; let c = |x: int32| x + k; let h = H { %s }; () }\n' % (decl, init)
+            d = tempfile.mkdtemp(prefix='vf-c08s-')
+            try:
+                open(os.path.join(d, 'main.gom'), 'w').write(src)
+                out = subprocess.run([build.compiler_bin(), 'run', '--dump-go', os.path.join(d, 'main.gom')], capture_output=True, text=True, timeout=60)
+            finally: shutil.rmtree(d, ignore_errors=True)
+            import re as _re
+            m_ = _re.search(r'type H struct \{(.*?)\n\}', out.stdout, _re.S); decl_go = [l.split() for l in m_.group(1).strip().splitlines()] if m_ else []
+            exp_go = ['int32' if k == 'int' else 'closure_env' for k in kinds]
+            bad = [(f_, t_) for (f_, *t_), e_ in zip(decl_go, exp_go) if not ' '.join(t_).startswith(e_)] if len(decl_go) == len(kinds) else None
+            ok_ = bool(bad); detail = 'goml `%s`: the emitted Go declares `type H struct { %s }`' % (src.replace('\n', ' | '), '; '.join(' '.join(x) for x in decl_go)) if m_ else 'no `type H struct` in the Go dump: ' + (out.stderr or out.stdout)[:160]
+            r.findings.append(Finding('struct-literal-closure-field-index', 'struct literal with fields %s: the lifted definition of H has the field types %s, expected %s' % (kinds, got, want), {'kinds': kinds}, ok_, detail))
+        elif len(r.samples) < 3: r.samples.append({'fields': kinds, 'types': [list(x) for x in got]})
+
+_c08_obl2 = obligations
+def obligations():
+    return _c08_obl2() + [Ob('O8.3-struct-literal-closure-fields', 'a struct literal rewrites exactly the fields that receive a closure', ob_struct_literal_fields, ('quick', 'thorough'), 2, {})]
